@@ -416,7 +416,8 @@ func TestC06Container(t *testing.T) {
 
 // c07Config builds n services 0..n-1 where i depends on j for each edge
 // (i<j), every dependency declared through the given form.
-//   form 0 plain parameter, 1 keyed (parameter object), 2 group, 3 parameter-object field, 4 interface alias
+//
+//	form 0 plain parameter, 1 keyed (parameter object), 2 group, 3 parameter-object field, 4 interface alias
 func c07Config(n int, lifes []int, edges [][2]int, form func(e int) int) *kit.Config {
 	cfg := &kit.Config{}
 	// how each service is provided depends on how it is consumed; a service
